@@ -41,10 +41,11 @@ REQUIRED_LABELS = ["plasma:nt", "beam:nt", "laser:nt"]
 AMU = K.atomic_mass
 WL_MIN, WL_MAX, BINS = 440.0, 680.0, 48
 PARAMS_AD = {"wavelengths": {"deuterium|0|3,2": 655.0, "deuterium|0|4,2": 486.1, "hydrogen|0|3,2": 656.3, "carbon|2|a,b": 465.0,
-                             "helium|1|4,3": 468.6, "carbon|5|8,7": 529.1, "neon|9|11,10": 525.0, "carbon|5|7,6": 343.4},
+                             "helium|1|4,3": 468.6, "carbon|5|8,7": 529.1, "neon|9|11,10": 525.0, "carbon|5|7,6": 343.4,
+                             "carbon|5|10,8": 490.2},
              "seed": 7, "beam_meta": [1, 2]}
 LINES = [("deuterium", 0, [3, 2]), ("deuterium", 0, [4, 2]), ("carbon", 2, ["a", "b"]), ("helium", 1, [4, 3]),
-         ("carbon", 5, [8, 7]), ("neon", 9, [11, 10])]
+         ("carbon", 5, [8, 7]), ("neon", 9, [11, 10]), ("carbon", 5, [10, 8])]
 SPECIES = [("deuterium", 0), ("deuterium", 1), ("carbon", 2), ("carbon", 3), ("carbon", 6), ("helium", 1), ("helium", 2),
            ("neon", 9), ("neon", 10), ("hydrogen", 0), ("hydrogen", 1)]
 SHAPES = ["default", "gaussian", "multiplet", "ztriplet", "pztriplet", "stark"]
@@ -133,8 +134,11 @@ def mk_geom(g):
 
 
 def mk_ad(tag):
+    """Providers "A" and "B" differ in every rate (tag) and - by 0.2 % - in every wavelength."""
     p = dict(PARAMS_AD)
     p["tag"] = tag
+    if tag == "B":
+        p["wavelengths"] = {k: v * 1.002 for k, v in PARAMS_AD["wavelengths"].items()}
     return MockAtomicData(p)
 
 
@@ -388,6 +392,7 @@ class SceneBase:
 
     def finish(self):
         self._compare("end of history")
+        self.ctx.label("theme:%s" % (self.rec.get("theme") or "all-rules"))
         self.ctx.nt(self.nt)
         if self.nt:
             self.ctx.label("nt")
@@ -493,6 +498,8 @@ class PlasmaScene(SceneBase):
         self._mut("p_integrator:" + mode)
 
     def do_p_ad(self, tag):
+        cur = self.rec["plasma"]["ad"]
+        tag = {"other": "B" if cur == "A" else "A", "same": cur}.get(tag, tag)
         self.rec["plasma"]["ad"] = tag
         self.live.plasma.atomic_data = mk_ad(tag)
         self._mut("p_ad")
@@ -515,10 +522,24 @@ class PlasmaScene(SceneBase):
     def do_p_brems_gaunt(self, g):
         for m, obj in zip(self.rec["plasma"]["models"], list(self.live.plasma.models)):
             if m["kind"] == "brems":
+                if g == "toggle":        # set a user factor, or withdraw the one in use (override -> default -> provider changes ...)
+                    g = 1 if m.get("gaunt") is None else None
                 m["gaunt"] = g
                 obj.gaunt_factor = mk_gaunt(g)
                 break
         self._mut("p_brems_gaunt:" + ("provider" if g is None else "user"))
+
+    def do_p_reassign(self, attr):
+        """plasma.<attr> = plasma.<attr>: the very same object again.  The configuration is unchanged, every later change
+        must still get through (a setter that unsubscribes the old object after subscribing the new one goes deaf here)."""
+        pl = self.live.plasma
+        if attr == "composition":
+            pl.composition = list(pl.composition)
+        elif attr == "models":
+            pl.models = list(pl.models)
+        else:
+            setattr(pl, attr, getattr(pl, attr))
+        self._mut("p_reassign:" + attr)
 
     def do_p_models_reattach(self, a):
         """detach all models and attach the very same Python objects again (their caches were filled before)"""
@@ -546,18 +567,20 @@ class PlasmaScene(SceneBase):
         "p_geom": _geom,
         "p_gt": lambda: st.one_of(st.none(), _tf()),
         "p_integrator": lambda: st.tuples(st.sampled_from(["swap", "inplace"]), _step),
-        "p_ad": lambda: st.sampled_from(["A", "B"]),
+        "p_ad": lambda: st.sampled_from(["other", "other", "same", "A", "B"]),
         "p_models_set": lambda: st.lists(_pmodel(), min_size=0, max_size=3),
         "p_models_add": _pmodel,
         "p_models_clear": lambda: st.just(None),
-        "p_brems_gaunt": lambda: st.sampled_from([None, 1, 2]),
+        "p_brems_gaunt": lambda: st.sampled_from([None, 1, 2, "toggle", "toggle", "toggle"]),
+        "p_reassign": lambda: st.sampled_from(["atomic_data", "integrator", "b_field", "electron_distribution", "geometry",
+                                               "geometry_transform", "composition", "models", "parent", "transform"]),
         "p_models_reattach": lambda: st.sampled_from(["clear-set", "set-same", "reversed"]),
     })
 
 
 @st.composite
 def plasma_params(draw):
-    return {"mid": draw(_tf()), "plasma": draw(plasma_cfg())}
+    return {"mid": draw(_tf()), "plasma": draw(plasma_cfg()), "theme": draw(_theme)}
 
 
 # ------------------------------------------------------------------------------------------------ beam machine
@@ -587,7 +610,7 @@ def _att():
 
 
 def _bmodel():
-    return st.one_of(st.fixed_dictionaries({"kind": st.just("cx"), "line": st.sampled_from([4, 5])}),
+    return st.one_of(st.fixed_dictionaries({"kind": st.just("cx"), "line": st.sampled_from([4, 5, 6])}),
                      st.fixed_dictionaries({"kind": st.just("bes"), "el": st.sampled_from(["same", "same", "same", "deuterium", "hydrogen"])}))
 
 
@@ -614,7 +637,7 @@ def beam_params(draw):
             pb["species"].append(draw(_species(need)))
     b = _resolve_cfg(draw(beam_cfg()))
     b["pl"] = draw(st.sampled_from(["a", "a", "b"]))
-    return {"mid": draw(_tf()), "plasma": p, "plasma_b": pb, "beam": b}
+    return {"mid": draw(_tf()), "plasma": p, "plasma_b": pb, "beam": b, "theme": draw(_theme)}
 
 
 class BeamScene(SceneBase):
@@ -673,6 +696,8 @@ class BeamScene(SceneBase):
         self._mut("b_plasma:" + which)
 
     def do_b_ad(self, tag):
+        cur = self.rec["beam"]["ad"]
+        tag = {"other": "B" if cur == "A" else "A", "same": cur}.get(tag, tag)
         self.rec["beam"]["ad"] = tag
         self._b().atomic_data = mk_ad(tag)
         self._mut("b_ad")
@@ -759,6 +784,18 @@ class BeamScene(SceneBase):
     def pre_b_cx_line(self):
         return any(m["kind"] == "cx" for m in self.rec["beam"]["models"])
 
+    def do_b_reassign(self, attr):
+        """beam.<attr> = beam.<attr> (the same object again), see do_p_reassign"""
+        b = self._b()
+        if attr == "models":
+            b.models = list(b.models)
+        elif attr == "model.line":
+            for obj in list(b.models):
+                obj.line = obj.line
+        else:
+            setattr(b, attr, getattr(b, attr))
+        self._mut("b_reassign:" + attr)
+
     def do_b_cx_line(self, li):
         for m, obj in zip(self.rec["beam"]["models"], list(self._b().models)):
             if m["kind"] == "cx":
@@ -777,7 +814,7 @@ class BeamScene(SceneBase):
         "b_div": lambda: st.tuples(st.sampled_from([0.0, 0.7, 2.5]), st.sampled_from([0.0, 1.0, 4.0])),
         "b_length": lambda: st.sampled_from([1.0, 2.0, 3.4]),
         "b_plasma": lambda: st.sampled_from(["a", "b"]),
-        "b_ad": lambda: st.sampled_from(["A", "B"]),
+        "b_ad": lambda: st.sampled_from(["other", "other", "same", "A", "B"]),
         "b_integrator": lambda: st.tuples(st.sampled_from(["swap", "inplace"]), _step),
         "b_tf": lambda: st.tuples(st.sampled_from([0.0, 0.05, -0.1]), st.sampled_from([0.0, 4.0, -7.0])),
         "b_parent": lambda: st.sampled_from(["world", "mid", "world", "mid", "none"]),
@@ -787,7 +824,9 @@ class BeamScene(SceneBase):
         "b_models_set": lambda: st.lists(_bmodel(), min_size=0, max_size=2),
         "b_models_add": _bmodel,
         "b_models_clear": lambda: st.just(None),
-        "b_cx_line": lambda: st.sampled_from([4, 5]),
+        "b_reassign": lambda: st.sampled_from(["plasma", "atomic_data", "attenuator", "integrator", "element", "models", "model.line",
+                                               "parent", "transform"]),
+        "b_cx_line": lambda: st.sampled_from([4, 5, 6, 6]),        # 4 and 6: two transitions of the same receiver ion
         "b_bes_line": lambda: st.sampled_from(["deuterium", "hydrogen"]),
     })
 
@@ -832,7 +871,8 @@ def laser_cfg(draw):
 def laser_params(draw):
     lz = draw(laser_cfg())
     lz["pl"] = draw(st.sampled_from(["a", "a", "b"]))
-    return {"mid": draw(_tf()), "plasma": draw(plasma_cfg(full=False)), "plasma_b": draw(plasma_cfg(full=False)), "laser": lz}
+    return {"mid": draw(_tf()), "plasma": draw(plasma_cfg(full=False)), "plasma_b": draw(plasma_cfg(full=False)), "laser": lz,
+            "theme": draw(_theme)}
 
 
 _PROFILE_SETTERS = {
@@ -905,6 +945,15 @@ class LaserScene(SceneBase):
         setattr(self._l().laser_spectrum, attr, v)
         self._mut("l_spectrum_set:" + attr)
 
+    def do_l_reassign(self, attr):
+        """laser.<attr> = laser.<attr> (the same object again), see do_p_reassign"""
+        la = self._l()
+        if attr == "models":
+            la.models = list(la.models)
+        else:
+            setattr(la, attr, getattr(la, attr))
+        self._mut("l_reassign:" + attr)
+
     def do_l_importance(self, v):
         self.rec["laser"]["importance"] = v
         self._l().importance = v
@@ -954,6 +1003,8 @@ class LaserScene(SceneBase):
         "l_polarization": lambda: _pol,
         "l_spectrum_swap": _lspectrum,
         "l_spectrum_set": lambda: st.tuples(st.sampled_from(sorted(_SPECTRUM_SETTERS)), st.integers(0, 5)),
+        "l_reassign": lambda: st.sampled_from(["laser_profile", "laser_profile", "laser_spectrum", "plasma", "integrator", "models",
+                                               "parent", "transform"]),
         "l_importance": lambda: st.sampled_from([1.0, 3.0, 0.5]),
         "l_integrator": lambda: st.tuples(st.sampled_from(["swap", "inplace"]), st.sampled_from([0.0078125, 0.015625, 0.03125])),
         "l_plasma": lambda: st.sampled_from(["a", "b"]),
@@ -980,9 +1031,38 @@ def _sandwich(cls):
         setattr(cls, "do_" + name, wrapped)
 
 
+# Themed histories.  With ~25 rules chosen uniformly, a defect that needs three particular mutators in a row (user Gaunt factor
+# set, withdrawn, provider replaced) is met once in thousands of histories.  Half of the histories are therefore restricted to
+# the rules of one theme - mutators acting on the same kind of derived state; the other half use every rule.
+THEMES = {
+    "provider": ("p_ad", "p_brems_gaunt", "p_models", "p_reassign", "p_comp_add", "b_ad", "b_cx_line", "b_bes_line", "b_models",
+                 "b_reassign", "b_element", "b_plasma", "l_models", "l_plasma", "l_reassign", "l_spectrum_swap", "l_profile_swap"),
+    "geometry": ("p_geom", "p_gt", "p_parent", "p_tf", "mid_tf", "p_integrator", "p_reassign", "b_tf", "b_parent", "b_length", "b_sigma",
+                 "b_div", "b_att", "b_integrator", "b_reassign", "l_tf", "l_parent", "l_profile_set", "l_integrator", "l_reassign"),
+    "profiles": ("p_b", "p_electrons", "p_comp", "p_ad", "b_energy", "b_power", "b_temperature", "b_att", "b_plasma", "l_polarization",
+                 "l_importance", "l_spectrum_set", "l_plasma"),
+}
+_theme = st.sampled_from([None, None, None, "provider", "geometry", "profiles"])
+
+
+def _themed(cls):
+    for name in list(cls.OPS):
+        if name.startswith("observe"):
+            continue
+        orig = getattr(cls, "pre_" + name, None)
+
+        def pre(self, name=name, orig=orig):
+            th = self.rec.get("theme")
+            if th is not None and not name.startswith(THEMES[th]):
+                return False
+            return orig(self) if orig is not None else True
+        setattr(cls, "pre_" + name, pre)
+
+
 for _cls in (PlasmaScene, BeamScene, LaserScene):
     _cls.OPS = dict(_cls.OPS)
     _sandwich(_cls)
+    _themed(_cls)
 
 
 SUBCHECKS = {
